@@ -1,272 +1,108 @@
-(* C18/Serial.v — serial equivalence for operation sets on ONE tract.
-   Every interleaved execution (any schedule, any oracle answers, any wake-up order) of operations on one tract is
-   explained by a SERIAL chain: the operations that got the tract lock, taken in the order in which they released
-   it (= acquisition order for exclusive operations; overlapping readers commute), each run ALONE from the state
-   its predecessor left, produce exactly the per-operation results and the final tract-map/disk state of the
-   interleaved execution; every other finished operation was refused without touching anything.
-   Mover lemmas: body steps do not depend on the busy map or the open/close counters ([body_local]); reader steps
-   do not change the serial state ([reader_pure]); sections exclude each other ([exclusion] of Proofs.v). *)
+(* C18/Serial.v — serial equivalence over any number of tracts: the invariant and the theorem (see SerialBase.v). *)
 From Coq Require Import List ZArith Bool Lia Arith.
 From Coq Require Import ZifyNat ZifyBool.
-From BLB Require Import Gen.Consts C18.Model C18.Proofs C18.Proofs2.
+From BLB Require Import Gen.Consts C18.Model C18.Proofs C18.Proofs2 C18.SerialBase.
 Import ListNotations.
 Open Scope Z_scope.
 
-(* the serial-relevant part of the global state *)
-Record sigma := { s_tracts : list (Z * Z); s_files : list (Z * file); s_nextfd : Z }.
-Definition proj (g : gst) : sigma := {| s_tracts := g_tracts g; s_files := g_files g; s_nextfd := g_nextfd g |}.
-Definition embed (x : sigma) : gst :=
-  {| g_busy := []; g_tracts := s_tracts x; g_files := s_files x; g_nextfd := s_nextfd x; g_opens := 0; g_closes := 0 |}.
-
-Definition lift (r : option (gst * pc * loc)) : option (sigma * pc * loc) :=
-  match r with Some (g, p, l) => Some (proj g, p, l) | None => None end.
-
-Definition body_pc (p : pc) : bool :=
-  match p with PStart | PLock | PUnlock | PDone | PCrash => false | _ => true end.
-
-Ltac dmg :=
-  repeat match goal with
-         | |- context [match ?x with _ => _ end] => destruct x eqn:?
-         | |- context [if ?x then _ else _] => destruct x eqn:?
-         end.
-
-(* a body step sees and changes only the serial state: busy map and counters are irrelevant to it *)
-Lemma body_local : forall V g g2 o p l inj,
-    body_pc p = true -> proj g2 = proj g ->
-    lift (step V g2 o p l inj) = lift (step V g o p l inj).
-Proof.
-  intros V [b t f n oo c] [b2 t2 f2 n2 oo2 c2] o p l inj Hb Hp.
-  unfold proj in Hp. cbn in Hp. inv Hp.
-  destruct p; try discriminate Hb;
-    unfold step, rm_cont, create_cont, do_close, handle_file, opened_one, closed_one, created_file, with_tracts, with_files;
-    cbn [g_busy g_tracts g_files g_nextfd g_opens g_closes];
-    destruct (o_kind o); cbn [is_reader wr_pc andb]; destruct (l_opened l) eqn:?; cbn iota; dmg; reflexivity.
-Qed.
-
-(* the solo machine: a body step of an operation running alone on serial state x *)
-Definition bstep (V : variant) (x : sigma) (o : opd) (p : pc) (l : loc) (inj : Z) : option (sigma * pc * loc) :=
-  lift (step V (embed x) o p l inj).
-
-Lemma step_bstep : forall V g o p l inj g' p' l',
-    body_pc p = true -> step V g o p l inj = Some (g', p', l') ->
-    bstep V (proj g) o p l inj = Some (proj g', p', l').
-Proof.
-  intros. unfold bstep. rewrite (body_local V g (embed (proj g)) o p l inj H) by reflexivity.
-  rewrite H0. reflexivity.
-Qed.
-
-(* steps of readers never change the serial state *)
-Lemma reader_pure : forall V g o p l inj g' p' l',
-    is_reader (o_kind o) = true -> step V g o p l inj = Some (g', p', l') -> proj g' = proj g.
-Proof.
-  intros V g o p l inj g' p' l' HR H.
-  destruct p; unfold step, rm_cont, create_cont, do_close, try_lock_once, unlock in H;
-    destruct (o_kind o) eqn:K; try discriminate HR; cbn [is_reader wr_pc andb] in H; dmh; reflexivity.
-Qed.
-
-Lemma mr_reader : forall k, lock_mode k = MR -> k <> KGCGone -> is_reader k = true.
-Proof. destruct k; cbn; congruence. Qed.
-
-Definition refusal (k : kind) (r : list Z) : Prop :=
-  r = busy_result k \/ r = [c18_e_BadVersion; 0] \/ r = [c18_e_InvalidArgument].
-
-Definition entry_pc (k : kind) : pc :=
-  match k with KCreate => PCLookup | KPull => PPullLoop | KPack => PRmLookup | KScrub => PScrub | _ => PLookup end.
-
-Lemma step_start : forall V g o l inj g' p' l',
-    o_kind o <> KGCGone -> step V g o PStart l inj = Some (g', p', l') ->
-    g' = g /\ ((p' = PLock /\ l' = l) \/ (p' = PDone /\ refusal (o_kind o) (l_res l'))).
-Proof.
-  intros V g o l inj g' p' l' K H. unfold step in H. destruct (o_kind o) eqn:E; cbn in H; dmh; try congruence;
-    split; auto; unfold refusal; cbn; auto.
-Qed.
-
-Lemma step_lock : forall V g o l inj g' p' l',
-    o_kind o <> KGCGone -> step V g o PLock l inj = Some (g', p', l') ->
-    proj g' = proj g /\ ((p' = entry_pc (o_kind o) /\ l' = l) \/ (p' = PDone /\ l_res l' = busy_result (o_kind o))).
-Proof.
-  intros V g o l inj g' p' l' K H. unfold step in H. destruct (o_kind o) eqn:E; cbn in H; dmh; try congruence;
-    split; auto; cbn; auto.
-Qed.
-
-Lemma step_unlock : forall V g o l inj g' p' l',
-    step V g o PUnlock l inj = Some (g', p', l') -> proj g' = proj g /\ l' = l /\ (p' = PDone \/ p' = PCrash).
-Proof.
-  intros V g o l inj g' p' l' H. unfold step in H. destruct (o_kind o) eqn:E; cbn in H; dmh; auto.
-Qed.
-
-Lemma body_holding : forall k p, k <> KGCGone -> (body_pc p = true \/ p = PUnlock) -> holding k p = true.
-Proof. intros k p K H. destruct H as [H|H]; [|subst p]; destruct k; try congruence; try destruct p; cbn in *; congruence. Qed.
-
-Lemma holding_pc : forall k p, holding k p = true -> body_pc p = true \/ p = PUnlock.
-Proof. intros k p H. destruct k, p; cbn in *; auto; discriminate. Qed.
-
-(* ---------- solo runs and serial chains ---------- *)
-Inductive sigma_steps (V : variant) (o : opd) : sigma * pc * loc -> sigma * pc * loc -> Prop :=
-| ss_refl : forall x, sigma_steps V o x x
-| ss_snoc : forall x y p l inj y' p' l',
-    sigma_steps V o x (y, p, l) -> body_pc p = true -> bstep V y o p l inj = Some (y', p', l') ->
-    sigma_steps V o x (y', p', l').
-
-(* operation o, alone, started on serial state x right after taking its lock, reaches its unlock with result r and state x' *)
-Definition solo (V : variant) (o : opd) (x : sigma) (r : list Z) (x' : sigma) : Prop :=
-  exists l, sigma_steps V o (x, entry_pc (o_kind o), loc0) (x', PUnlock, l) /\ l_res l = r.
-
-Inductive Ser (V : variant) (ops : list opd) : sigma -> list (nat * list Z) -> sigma -> Prop :=
-| Ser_nil : forall x, Ser V ops x [] x
-| Ser_snoc : forall x0 ch x1 i o r x2,
-    Ser V ops x0 ch x1 -> nth_error ops i = Some o -> solo V o x1 r x2 -> Ser V ops x0 (ch ++ [(i, r)]) x2.
-
-Definition t_kind (t : thread) := o_kind (t_op t).
-Definition t_inside (t : thread) : bool := holding (t_kind t) (t_pc t).
-
-Record SInv (V : variant) (ops : list opd) (x0 : sigma) (s : sys) (ch : list (nat * list Z)) (xm : sigma) : Prop := {
-  si_ops : map t_op (snd s) = ops;
-  si_ser : Ser V ops x0 ch xm;
-  si_done : forall i r, In (i, r) ch -> exists t, nth_error (snd s) i = Some t /\ t_pc t = PDone /\ l_res (t_loc t) = r;
-  si_fresh : forall i t, nth_error (snd s) i = Some t -> (t_pc t = PStart \/ t_pc t = PLock) -> t_loc t = loc0;
-  si_in : forall i t, nth_error (snd s) i = Some t -> t_inside t = true ->
-                      sigma_steps V (t_op t) (xm, entry_pc (t_kind t), loc0) (proj (fst s), t_pc t, t_loc t);
-  si_rd : (forall i t, nth_error (snd s) i = Some t -> t_inside t = true -> lock_mode (t_kind t) = MR) -> proj (fst s) = xm;
-  si_fin : forall i t, nth_error (snd s) i = Some t -> t_pc t = PDone ->
-                       (exists r, In (i, r) ch) \/ refusal (t_kind t) (l_res (t_loc t));
-  si_nodup : NoDup (map fst ch)
-}.
-
-Definition ok_op (id : Z) (o : opd) : Prop := o_tract o = id /\ o_kind o <> KGCGone.
-
-Lemma map_upd_op : forall (ths : list thread) i t p l,
-    nth_error ths i = Some t -> map t_op (upd i {| t_op := t_op t; t_pc := p; t_loc := l |} ths) = map t_op ths.
-Proof.
-  induction ths as [|x r IH]; intros [|i] t p l H; cbn in *; try discriminate.
-  - inv H. reflexivity.
-  - f_equal. eauto.
-Qed.
-
-Lemma nth_map_op : forall (ths : list thread) i t, nth_error ths i = Some t -> nth_error (map t_op ths) i = Some (t_op t).
-Proof. intros. rewrite nth_error_map, H. reflexivity. Qed.
-
-Lemma in_fst : forall (ch : list (nat * list Z)) i, In i (map fst ch) -> exists r, In (i, r) ch.
-Proof. induction ch as [|[j r] c IH]; cbn; intros i H; [tauto|]. destruct H as [->|H]; eauto. destruct (IH _ H); eauto. Qed.
-
-Lemma inside_of : forall id t, o_tract (t_op t) = id -> t_inside t = true -> inside id t = true.
-Proof. intros id t E H. unfold inside, t_inside, t_kind in *. rewrite H, E, Z.eqb_refl. reflexivity. Qed.
-
-Lemma NoDup_snoc {A} : forall (l : list A) x, NoDup l -> ~ In x l -> NoDup (l ++ [x]).
-Proof.
-  induction l as [|a l IH]; intros x H N; cbn.
-  - constructor; auto.
-  - inversion H; subst. constructor.
-    + intro Hc. apply in_app_or in Hc. destruct Hc as [Hc|[Hc|[]]]; [contradiction|]. subst. apply N. left. auto.
-    + apply IH; auto. intro Hc. apply N. right. auto.
-Qed.
-
-Lemma pc_class : forall p, p = PStart \/ p = PLock \/ p = PUnlock \/ body_pc p = true \/ (p = PDone \/ p = PCrash).
-Proof. destruct p; cbn; auto 10. Qed.
+Lemma updf_same : forall x a v, updf x a v a = v.
+Proof. intros. unfold updf. rewrite Z.eqb_refl. reflexivity. Qed.
+Lemma updf_other : forall x a v b, b <> a -> updf x a v b = x b.
+Proof. intros. unfold updf. destruct (b =? a) eqn:E; auto. apply Z.eqb_eq in E. congruence. Qed.
 
 (* one step of the interleaved system preserves the serial explanation *)
-Lemma sinv_step : forall V id ops x0 s ch xm j inj s',
-    reachable V s -> Forall (ok_op id) ops ->
+Lemma sinv_step : forall V ops x0 s ch xm j inj s',
+    reachable V s -> Forall ok_op ops ->
     SInv V ops x0 s ch xm -> sys_step V s j inj = Some s' ->
     exists ch' xm', SInv V ops x0 s' ch' xm'.
 Proof.
-  intros V id ops x0 [g ths] ch xm j inj s' R OK I St.
+  intros V ops x0 [g ths] ch xm j inj s' R OK I St.
   pose proof (R_step _ _ _ _ _ R St) as R'.
   unfold sys_step in St.
   destruct (nth_error ths j) as [t|] eqn:Nj; [|discriminate].
   destruct (step V g (t_op t) (t_pc t) (t_loc t) inj) as [[[g' p'] l']|] eqn:E; [|discriminate]. inv St.
   destruct I as [Iops Iser Idone Ifresh Iin Ird Ifin Ind]. cbn [fst snd] in *.
-  assert (OKt : ok_op id (t_op t)).
+  assert (Tk : o_kind (t_op t) <> KGCGone).
   { rewrite Forall_forall in OK. apply OK. rewrite <- Iops. apply in_map. eapply nth_error_In; eauto. }
-  destruct OKt as [Tid Tk].
-  assert (OKall : forall i u, nth_error ths i = Some u -> ok_op id (t_op u)).
-  { intros i u Hu. rewrite Forall_forall in OK. apply OK. rewrite <- Iops. apply in_map. eapply nth_error_In; eauto. }
+  set (a := t_tract t).
   set (t' := {| t_op := t_op t; t_pc := p'; t_loc := l' |}).
   assert (Hops' : map t_op (upd j t' ths) = ops) by (unfold t'; rewrite (map_upd_op ths j t p' l' Nj); auto).
-  (* facts about other threads after the step *)
   assert (Hoth : forall i u, i <> j -> nth_error (upd j t' ths) i = Some u -> nth_error ths i = Some u)
     by (intros i u N H; rewrite nth_upd_other in H by auto; auto).
   assert (Hj' : nth_error (upd j t' ths) j = Some t') by (eapply nth_upd_same; eauto).
+  (* generic transfer of the facts that do not concern thread j when the store is unchanged *)
+  assert (Hdone_keep : t_pc t <> PDone -> forall i r, In (i, r) ch ->
+            exists u, nth_error (upd j t' ths) i = Some u /\ t_pc u = PDone /\ l_res (t_loc u) = r).
+  { intros Hnd i r Hin. destruct (Idone i r Hin) as [u [Hu [Hp Hr]]].
+    destruct (Nat.eq_dec i j) as [->|N]; [rewrite Nj in Hu; inv Hu; congruence|].
+    exists u. rewrite nth_upd_other by auto. auto. }
   destruct (pc_class (t_pc t)) as [P|[P|[P|[P|P]]]].
   5: { destruct P as [P|P]; rewrite P in E; unfold step in E;
        destruct (is_reader (o_kind (t_op t))); cbn in E; discriminate. }
   - (* PStart *)
     rewrite P in E.
-    destruct (step_start _ _ _ _ _ _ _ _ Tk E) as [-> [[-> ->]|[-> Rf]]].
-    + exists ch, xm. split; cbn [fst snd]; auto.
-      * intros i r Hin. destruct (Idone i r Hin) as [u [Hu [Hp Hr]]].
-        destruct (Nat.eq_dec i j) as [->|N]; [rewrite Nj in Hu; inv Hu; congruence|].
-        exists u. rewrite nth_upd_other by auto. auto.
-      * intros i u Hu Hp. destruct (Nat.eq_dec i j) as [->|N].
-        { rewrite Hj' in Hu. inv Hu. cbn. apply (Ifresh j t Nj). auto. }
-        { eapply Ifresh; eauto. }
-      * intros i u Hu Hin. destruct (Nat.eq_dec i j) as [->|N].
-        { rewrite Hj' in Hu. inv Hu. unfold t_inside, t_kind in Hin. cbn in Hin. destruct (o_kind (t_op t)); discriminate. }
-        { eapply Iin; eauto. }
-      * intros Hall. apply Ird. intros i u Hu Hin. destruct (Nat.eq_dec i j) as [->|N].
-        { rewrite Nj in Hu. inv Hu. unfold t_inside, t_kind in Hin. rewrite P in Hin. destruct (o_kind (t_op u)); discriminate. }
-        { apply (Hall i u); auto. rewrite nth_upd_other by auto. auto. }
-      * intros i u Hu Hp. destruct (Nat.eq_dec i j) as [->|N].
-        { rewrite Hj' in Hu. inv Hu. discriminate. }
-        { eapply Ifin; eauto. }
-    + exists ch, xm. split; cbn [fst snd]; auto.
-      * intros i r Hin. destruct (Idone i r Hin) as [u [Hu [Hp Hr]]].
-        destruct (Nat.eq_dec i j) as [->|N]; [rewrite Nj in Hu; inv Hu; congruence|].
-        exists u. rewrite nth_upd_other by auto. auto.
-      * intros i u Hu Hp. destruct (Nat.eq_dec i j) as [->|N].
-        { rewrite Hj' in Hu. inv Hu. cbn in Hp. destruct Hp; discriminate. }
-        { eapply Ifresh; eauto. }
-      * intros i u Hu Hin. destruct (Nat.eq_dec i j) as [->|N].
-        { rewrite Hj' in Hu. inv Hu. unfold t_inside, t_kind in Hin. cbn in Hin. destruct (o_kind (t_op t)); discriminate. }
-        { eapply Iin; eauto. }
-      * intros Hall. apply Ird. intros i u Hu Hin. destruct (Nat.eq_dec i j) as [->|N].
-        { rewrite Nj in Hu. inv Hu. unfold t_inside, t_kind in Hin. rewrite P in Hin. destruct (o_kind (t_op u)); discriminate. }
-        { apply (Hall i u); auto. rewrite nth_upd_other by auto. auto. }
-      * intros i u Hu Hp. destruct (Nat.eq_dec i j) as [->|N].
-        { rewrite Hj' in Hu. inv Hu. right. exact Rf. }
-        { eapply Ifin; eauto. }
+    destruct (step_start _ _ _ _ _ _ _ _ Tk E) as [-> Hcase].
+    assert (Hnin : t_inside t' = false).
+    { unfold t_inside, t_kind, t'. cbn. destruct Hcase as [[-> _]|[-> _]]; destruct (o_kind (t_op t)); reflexivity. }
+    assert (Hnin0 : t_inside t = false) by (unfold t_inside, t_kind; rewrite P; destruct (o_kind (t_op t)); reflexivity).
+    exists ch, xm. split; cbn [fst snd]; auto.
+    + apply Hdone_keep. congruence.
+    + intros i u Hu Hp. destruct (Nat.eq_dec i j) as [->|N].
+      { rewrite Hj' in Hu. inv Hu. cbn in Hp. destruct Hcase as [[-> ->]|[-> _]].
+        - apply (Ifresh j t Nj). auto.
+        - destruct Hp; discriminate. }
+      { eapply Ifresh; eauto. }
+    + intros i u Hu Hin. destruct (Nat.eq_dec i j) as [->|N].
+      { rewrite Hj' in Hu. inv Hu. congruence. }
+      { eapply Iin; eauto. }
+    + intros b Hall. apply Ird. intros i u Hu Hin Hb. destruct (Nat.eq_dec i j) as [->|N].
+      { rewrite Nj in Hu. inv Hu. congruence. }
+      { apply (Hall i u); auto. rewrite nth_upd_other by auto. auto. }
+    + intros i u Hu Hp. destruct (Nat.eq_dec i j) as [->|N].
+      { rewrite Hj' in Hu. inv Hu. cbn in Hp. destruct Hcase as [[-> _]|[_ Rf]]; [discriminate|]. right. exact Rf. }
+      { eapply Ifin; eauto. }
   - (* PLock *)
     rewrite P in E.
-    destruct (step_lock _ _ _ _ _ _ _ _ Tk E) as [Pg [[-> ->]|[-> Rb]]].
+    destruct (step_lock _ _ _ _ _ _ _ _ Tk E) as [Pg Hcase].
+    pose proof (same_store_at _ _ Pg) as Pat.
+    assert (Hnin0 : t_inside t = false) by (unfold t_inside, t_kind; rewrite P; destruct (o_kind (t_op t)); reflexivity).
+    destruct Hcase as [[-> ->]|[-> Rb]].
     + (* acquired *)
       assert (Hin' : t_inside t' = true).
       { unfold t_inside, t_kind, t'. cbn. apply body_holding; auto. destruct (o_kind (t_op t)); cbn; auto; congruence. }
-      (* everybody inside before is a reader or nobody is inside: in both cases the state is the committed one *)
-      assert (Hxm : proj g = xm).
-      { apply Ird. intros i u Hu Hin. destruct (Nat.eq_dec i j) as [->|N].
-        { rewrite Nj in Hu. inv Hu. unfold t_inside, t_kind in Hin. rewrite P in Hin. destruct (o_kind (t_op u)); discriminate. }
+      assert (Hxm : at_ a g = xm a).
+      { apply Ird. intros i u Hu Hin Hb. destruct (Nat.eq_dec i j) as [->|N].
+        { rewrite Nj in Hu. inv Hu. congruence. }
         assert (Hu' : nth_error (upd j t' ths) i = Some u) by (rewrite nth_upd_other by auto; auto).
-        destruct (OKall i u Hu) as [Uid _].
-        destruct (exclusion V (g', upd j t' ths) i j u t' id R' N Hu' Hj'
-                            (inside_of id u Uid Hin) (inside_of id t' Tid Hin')) as [Hm _]. exact Hm. }
+        destruct (both_readers V (g', upd j t' ths) i j u t' R' N Hu' Hj' Hin Hin' Hb) as [Hm _]. exact Hm. }
       exists ch, xm. split; cbn [fst snd]; auto.
-      * intros i r Hin. destruct (Idone i r Hin) as [u [Hu [Hp Hr]]].
-        destruct (Nat.eq_dec i j) as [->|N]; [rewrite Nj in Hu; inv Hu; congruence|].
-        exists u. rewrite nth_upd_other by auto. auto.
+      * apply Hdone_keep. congruence.
       * intros i u Hu Hp. destruct (Nat.eq_dec i j) as [->|N].
         { rewrite Hj' in Hu. inv Hu. cbn in Hp. destruct (o_kind (t_op t)); cbn in Hp; destruct Hp; discriminate. }
         { eapply Ifresh; eauto. }
-      * intros i u Hu Hin. rewrite Pg. destruct (Nat.eq_dec i j) as [->|N].
-        { rewrite Hj' in Hu. inv Hu. unfold t', t_kind. cbn [t_op t_pc t_loc].
-          rewrite (Ifresh j t Nj (or_intror P)). try rewrite Hxm. apply ss_refl. }
+      * intros i u Hu Hin. rewrite Pat. destruct (Nat.eq_dec i j) as [->|N].
+        { rewrite Hj' in Hu. injection Hu as <-. unfold t', t_kind, t_tract. cbn [t_op t_pc t_loc].
+          rewrite (Ifresh j t Nj (or_intror P)). change (o_tract (t_op t)) with a. rewrite Hxm. apply ls_refl. }
         { eapply Iin; eauto. }
-      * intros _. rewrite Pg. exact Hxm.
+      * intros b Hall. rewrite Pat. destruct (Z.eq_dec b a) as [->|Nb]; [exact Hxm|].
+        apply Ird. intros i u Hu Hin Hb. destruct (Nat.eq_dec i j) as [->|N].
+        { rewrite Nj in Hu. inv Hu. congruence. }
+        { apply (Hall i u); auto. rewrite nth_upd_other by auto. auto. }
       * intros i u Hu Hp. destruct (Nat.eq_dec i j) as [->|N].
         { rewrite Hj' in Hu. inv Hu. cbn in Hp. destruct (o_kind (t_op t)); discriminate. }
         { eapply Ifin; eauto. }
     + (* refused at once *)
+      assert (Hnin : t_inside t' = false) by (unfold t_inside, t_kind, t'; cbn; destruct (o_kind (t_op t)); reflexivity).
       exists ch, xm. split; cbn [fst snd]; auto.
-      * intros i r Hin. destruct (Idone i r Hin) as [u [Hu [Hp Hr]]].
-        destruct (Nat.eq_dec i j) as [->|N]; [rewrite Nj in Hu; inv Hu; congruence|].
-        exists u. rewrite nth_upd_other by auto. auto.
+      * apply Hdone_keep. congruence.
       * intros i u Hu Hp. destruct (Nat.eq_dec i j) as [->|N].
         { rewrite Hj' in Hu. inv Hu. cbn in Hp. destruct Hp; discriminate. }
         { eapply Ifresh; eauto. }
-      * intros i u Hu Hin. rewrite Pg. destruct (Nat.eq_dec i j) as [->|N].
-        { rewrite Hj' in Hu. inv Hu. unfold t_inside, t_kind in Hin. cbn in Hin. destruct (o_kind (t_op t)); discriminate. }
+      * intros i u Hu Hin. rewrite Pat. destruct (Nat.eq_dec i j) as [->|N].
+        { rewrite Hj' in Hu. inv Hu. congruence. }
         { eapply Iin; eauto. }
-      * intros Hall. rewrite Pg. apply Ird. intros i u Hu Hin. destruct (Nat.eq_dec i j) as [->|N].
-        { rewrite Nj in Hu. inv Hu. unfold t_inside, t_kind in Hin. rewrite P in Hin. destruct (o_kind (t_op u)); discriminate. }
+      * intros b Hall. rewrite Pat. apply Ird. intros i u Hu Hin Hb. destruct (Nat.eq_dec i j) as [->|N].
+        { rewrite Nj in Hu. inv Hu. congruence. }
         { apply (Hall i u); auto. rewrite nth_upd_other by auto. auto. }
       * intros i u Hu Hp. destruct (Nat.eq_dec i j) as [->|N].
         { rewrite Hj' in Hu. inv Hu. right. left. exact Rb. }
@@ -274,17 +110,26 @@ Proof.
   - (* PUnlock: the operation commits; it joins the serial chain *)
     rewrite P in E.
     destruct (step_unlock _ _ _ _ _ _ _ _ E) as [Pg [-> Hp']].
+    pose proof (same_store_at _ _ Pg) as Pat.
     assert (p' = PDone) as ->.
     { destruct Hp' as [->| ->]; auto. exfalso. eapply (reachable_no_crash _ _ R' j t'); eauto. }
     assert (Hint : t_inside t = true) by (unfold t_inside, t_kind; rewrite P; apply body_holding; auto).
-    pose proof (Iin j t Nj Hint) as Hsolo. rewrite P in Hsolo.
+    pose proof (Iin j t Nj Hint) as Hsolo. rewrite P in Hsolo. fold a in Hsolo.
     assert (Hnotin : ~ In j (map fst ch)).
     { intro Hc. destruct (in_fst _ _ Hc) as [r Hr]. destruct (Idone j r Hr) as [u [Hu [Hp _]]].
       rewrite Nj in Hu. inv Hu. congruence. }
-    exists (ch ++ [(j, l_res (t_loc t))]), (proj g'). split; cbn [fst snd]; auto.
-    + apply Ser_snoc with (x1 := xm) (o := t_op t); [exact Iser | |].
+    assert (Hnin : t_inside t' = false) by (unfold t_inside, t_kind, t'; cbn; destruct (o_kind (t_op t)); reflexivity).
+    (* if another operation is inside on the same tract, everybody there is a reader and the tract is in its committed state *)
+    assert (Hxm : forall i u, i <> j -> nth_error ths i = Some u -> t_inside u = true -> t_tract u = a -> at_ a g = xm a).
+    { intros i u N Hu0 Hin Hb. apply Ird. intros v w Hw Hinw Hwb.
+      destruct (Nat.eq_dec v j) as [->|Nv].
+      - rewrite Nj in Hw. injection Hw as <-.
+        destruct (both_readers V (g, ths) i j u t R N Hu0 Nj Hin Hint Hb) as [_ Hm]. exact Hm.
+      - destruct (both_readers V (g, ths) v j w t R Nv Hw Nj Hinw Hint Hwb) as [Hm _]. exact Hm. }
+    exists (ch ++ [(j, l_res (t_loc t))]), (updf xm a (at_ a g)). split; cbn [fst snd]; auto.
+    + apply GSer_snoc with (x1 := xm) (o := t_op t) (v := at_ a g); [exact Iser | | | auto].
       * rewrite <- Iops. apply nth_map_op; auto.
-      * exists (t_loc t). split; auto. rewrite Pg. exact Hsolo.
+      * exists (t_loc t). split; auto.
     + intros i r Hin. apply in_app_or in Hin. destruct Hin as [Hin|[Hin|[]]].
       * destruct (Idone i r Hin) as [u [Hu [Hp Hr]]].
         destruct (Nat.eq_dec i j) as [->|N]; [rewrite Nj in Hu; inv Hu; congruence|].
@@ -294,15 +139,16 @@ Proof.
       { rewrite Hj' in Hu. inv Hu. cbn in Hp. destruct Hp; discriminate. }
       { eapply Ifresh; eauto. }
     + intros i u Hu Hin. destruct (Nat.eq_dec i j) as [->|N].
-      { rewrite Hj' in Hu. inv Hu. unfold t_inside, t_kind in Hin. cbn in Hin. destruct (o_kind (t_op t)); discriminate. }
-      pose proof (Hoth i u N Hu) as Hu0.
-      assert (Hxm : proj g = xm).
-      { apply Ird. intros v w Hw Hinw. destruct (OKall v w Hw) as [Wid _]. destruct (OKall i u Hu0) as [Uid _].
-        destruct (Nat.eq_dec v j) as [->|Nv].
-        - rewrite Nj in Hw. injection Hw as <-.
-          destruct (exclusion V (g, ths) i j u t id R N Hu0 Nj (inside_of id u Uid Hin) (inside_of id t Tid Hint)) as [_ Hm]. exact Hm.
-        - destruct (exclusion V (g, ths) v j w t id R Nv Hw Nj (inside_of id w Wid Hinw) (inside_of id t Tid Hint)) as [Hm _]. exact Hm. }
-      rewrite Pg. pose proof (Iin i u Hu0 Hin) as Hi. rewrite <- Hxm in Hi. exact Hi.
+      { rewrite Hj' in Hu. inv Hu. congruence. }
+      pose proof (Hoth i u N Hu) as Hu0. rewrite Pat.
+      destruct (Z.eq_dec (t_tract u) a) as [Hb|Hb].
+      * rewrite Hb, updf_same. pose proof (Iin i u Hu0 Hin) as Hi. rewrite Hb in Hi.
+        rewrite <- (Hxm i u N Hu0 Hin Hb) in Hi. exact Hi.
+      * rewrite updf_other by auto. eapply Iin; eauto.
+    + intros b Hall. rewrite Pat. destruct (Z.eq_dec b a) as [->|Nb]; [rewrite updf_same; reflexivity|].
+      rewrite updf_other by auto. apply Ird. intros i u Hu Hin Hb. destruct (Nat.eq_dec i j) as [->|N].
+      { rewrite Nj in Hu. injection Hu as <-. unfold a in Nb. congruence. }
+      { apply (Hall i u); auto. rewrite nth_upd_other by auto. auto. }
     + intros i u Hu Hp. destruct (Nat.eq_dec i j) as [->|N].
       { rewrite Hj' in Hu. inv Hu. left. exists (l_res (t_loc t)). apply in_or_app. right. left. reflexivity. }
       { destruct (Ifin i u (Hoth i u N Hu) Hp) as [[r Hr]|Hr]; [left; exists r; apply in_or_app; auto|right; auto]. }
@@ -313,114 +159,34 @@ Proof.
     assert (NU : t_pc t <> PUnlock) by (intro Hc; rewrite Hc in P; discriminate).
     destruct (step_other _ _ _ _ _ _ _ _ _ E NL NU) as [_ Hh].
     assert (Hint' : t_inside t' = true) by (unfold t_inside, t_kind, t'; cbn; rewrite Hh; exact Hint).
-    pose proof (step_bstep _ _ _ _ _ _ _ _ _ P E) as Hbs.
-    assert (Hpure : lock_mode (t_kind t) = MR -> proj g' = proj g).
-    { intro Hm. eapply reader_pure; eauto. apply mr_reader; auto. }
+    pose proof (step_lstep _ _ _ _ _ _ _ _ _ P E) as Hbs. change (o_tract (t_op t)) with a in Hbs.
+    assert (Hpure : lock_mode (t_kind t) = MR -> forall b, at_ b g' = at_ b g).
+    { intro Hm. apply same_store_at. eapply reader_pure; eauto. apply mr_reader; auto. }
+    assert (Hfr : forall b, b <> a -> at_ b g' = at_ b g) by (intros b Nb; eapply frame_at; eauto).
     exists ch, xm. split; cbn [fst snd]; auto.
-    + intros i r Hin. destruct (Idone i r Hin) as [u [Hu [Hp Hr]]].
-      destruct (Nat.eq_dec i j) as [->|N]; [rewrite Nj in Hu; inv Hu; rewrite Hp in P; discriminate|].
-      exists u. rewrite nth_upd_other by auto. auto.
+    + apply Hdone_keep. intro Hc. rewrite Hc in P. discriminate.
     + intros i u Hu Hp. destruct (Nat.eq_dec i j) as [->|N].
       { rewrite Hj' in Hu. inv Hu. cbn in Hp. unfold t_inside, t_kind in Hint'. cbn in Hint'.
         destruct Hp as [Hp|Hp]; rewrite Hp in Hint'; destruct (o_kind (t_op t)); discriminate. }
       { eapply Ifresh; eauto. }
     + intros i u Hu Hin. destruct (Nat.eq_dec i j) as [->|N].
-      { rewrite Hj' in Hu. inv Hu. unfold t', t_kind. cbn [t_op t_pc t_loc]. eapply ss_snoc; [apply (Iin j t Nj Hint) | exact P | exact Hbs]. }
+      { rewrite Hj' in Hu. injection Hu as <-. unfold t', t_kind, t_tract. cbn [t_op t_pc t_loc]. change (o_tract (t_op t)) with a.
+        eapply ls_snoc; [apply (Iin j t Nj Hint) | exact P | exact Hbs]. }
       pose proof (Hoth i u N Hu) as Hu0.
-      destruct (OKall i u Hu0) as [Uid _].
-      destruct (exclusion V (g, ths) i j u t id R N Hu0 Nj (inside_of id u Uid Hin) (inside_of id t Tid Hint)) as [_ Hm].
-      rewrite (Hpure Hm). eapply Iin; eauto.
-    + intros Hall. pose proof (Hall j t' Hj' Hint') as Hm. unfold t_kind, t' in Hm. cbn in Hm.
-      rewrite (Hpure Hm). apply Ird. intros i u Hu Hin. destruct (Nat.eq_dec i j) as [->|N].
-      { rewrite Nj in Hu. inv Hu. exact Hm. }
-      { apply (Hall i u); auto. rewrite nth_upd_other by auto. auto. }
+      destruct (Z.eq_dec (t_tract u) a) as [Hb|Hb].
+      * destruct (both_readers V (g, ths) i j u t R N Hu0 Nj Hin Hint Hb) as [_ Hm].
+        rewrite (Hpure Hm). eapply Iin; eauto.
+      * rewrite (Hfr _ Hb). eapply Iin; eauto.
+    + intros b Hall. destruct (Z.eq_dec b a) as [->|Nb].
+      * pose proof (Hall j t' Hj' Hint' eq_refl) as Hm. unfold t_kind, t' in Hm. cbn in Hm.
+        rewrite (Hpure Hm). apply Ird. intros i u Hu Hin Hb. destruct (Nat.eq_dec i j) as [->|N].
+        { rewrite Nj in Hu. injection Hu as <-. exact Hm. }
+        { apply (Hall i u); auto. rewrite nth_upd_other by auto. auto. }
+      * rewrite (Hfr _ Nb). apply Ird. intros i u Hu Hin Hb. destruct (Nat.eq_dec i j) as [->|N].
+        { rewrite Nj in Hu. injection Hu as <-. unfold a in Nb. congruence. }
+        { apply (Hall i u); auto. rewrite nth_upd_other by auto. auto. }
     + intros i u Hu Hp. destruct (Nat.eq_dec i j) as [->|N].
       { rewrite Hj' in Hu. inv Hu. cbn in Hp. unfold t_inside, t_kind in Hint'. cbn in Hint'. rewrite Hp in Hint'.
         destruct (o_kind (t_op t)); discriminate. }
       { eapply Ifin; eauto. }
-Qed.
-
-
-Lemma reachable_all_spawned : forall V g ops, init_g g -> reachable V (g, map new_thread ops).
-Proof.
-  intros V g ops Hg. induction ops as [|o ops IH] using rev_ind; cbn.
-  - apply R_init; auto.
-  - rewrite map_app. cbn. apply R_spawn. exact IH.
-Qed.
-
-Lemma sinv_init : forall V ops g, SInv V ops (proj g) (g, map new_thread ops) [] (proj g).
-Proof.
-  intros V ops g. split; cbn [fst snd].
-  - rewrite map_map. cbn. apply map_id.
-  - constructor.
-  - intros i r [].
-  - intros i t H _. rewrite nth_error_map in H. destruct (nth_error ops i); inv H. reflexivity.
-  - intros i t H Hin. rewrite nth_error_map in H. destruct (nth_error ops i); inv H.
-    unfold t_inside, t_kind in Hin. cbn in Hin. destruct (o_kind o); discriminate.
-  - auto.
-  - intros i t H Hp. rewrite nth_error_map in H. destruct (nth_error ops i); inv H. discriminate.
-  - constructor.
-Qed.
-
-Lemma sinv_run : forall V id ops x0, Forall (ok_op id) ops ->
-  forall sched s ch xm, reachable V s -> SInv V ops x0 s ch xm ->
-    exists ch' xm', reachable V (run_sched V s sched) /\ SInv V ops x0 (run_sched V s sched) ch' xm'.
-Proof.
-  intros V id ops x0 OK. induction sched as [|[i inj] r IH]; intros s ch xm R I; cbn.
-  - eauto.
-  - destruct (sys_step V s i inj) as [s'|] eqn:E.
-    + destruct (sinv_step V id ops x0 s ch xm i inj s' R OK I E) as [ch' [xm' I']].
-      eapply IH; eauto. eapply R_step; eauto.
-    + eapply IH; eauto.
-Qed.
-
-(* serial equivalence, one tract: every complete interleaved execution equals the serial execution of the operations
-   that got the lock, in the order in which they released it; all other operations were refused and changed nothing *)
-Theorem serial_equivalence_one_tract : forall V id ops g0 sched,
-    init_g g0 -> Forall (ok_op id) ops ->
-    let s := run_sched V (g0, map new_thread ops) sched in
-    quiescent s ->
-    exists ch,
-      Ser V ops (proj g0) ch (proj (fst s)) /\ NoDup (map fst ch) /\
-      (forall i r, In (i, r) ch -> exists t, nth_error (snd s) i = Some t /\ t_pc t = PDone /\ l_res (t_loc t) = r) /\
-      (forall i t, nth_error (snd s) i = Some t -> (exists r, In (i, r) ch) \/ refusal (o_kind (t_op t)) (l_res (t_loc t))).
-Proof.
-  intros V id ops g0 sched Hg OK s Q.
-  destruct (sinv_run V id ops (proj g0) OK sched (g0, map new_thread ops) [] (proj g0)
-                     (reachable_all_spawned V g0 ops Hg) (sinv_init V ops g0)) as [ch [xm [R I]]].
-  fold s in R, I. destruct I as [Iops Iser Idone Ifresh Iin Ird Ifin Ind].
-  assert (Hx : proj (fst s) = xm).
-  { apply Ird. intros i t Ht Hin. unfold t_inside in Hin. rewrite (Q i t Ht) in Hin. destruct (t_kind t); discriminate. }
-  exists ch. rewrite Hx. repeat split; auto.
-  intros i t Ht. apply (Ifin i t Ht). apply (Q i t Ht).
-Qed.
-
-(* ---------- non-vacuity: solo runs compute what the operations do ---------- *)
-Lemma ss_trans : forall V o x y z, sigma_steps V o x y -> sigma_steps V o y z -> sigma_steps V o x z.
-Proof. intros V o x y z H1 H2. induction H2; auto. eapply ss_snoc; eauto. Qed.
-
-Lemma ss_cons : forall V o x p l inj x' p' l' z,
-    body_pc p = true -> bstep V x o p l inj = Some (x', p', l') -> sigma_steps V o (x', p', l') z ->
-    sigma_steps V o (x, p, l) z.
-Proof. intros. eapply ss_trans; [|eauto]. eapply ss_snoc; eauto. apply ss_refl. Qed.
-
-Ltac solo_run := repeat (first [ apply ss_refl | eapply ss_cons with (inj := 0); [reflexivity | vm_compute; reflexivity | ] ]).
-
-Example solo_write :
-  solo repaired op_write (proj g_one_tract) [c18_e_NoError]
-       {| s_tracts := [(0, 1)]; s_files := [(0, {| f_fd := 1; f_ver := Some 2; f_data := [9; 2] |})]; s_nextfd := 2 |}.
-Proof. eexists. split; [solo_run | reflexivity]. Qed.
-
-(* a write followed by a conditional bump carrying the stamp the write left (1): the chain the theorem speaks about *)
-Example serial_chain_example :
-  exists x2, Ser repaired [op_write; op_setversion_stale] (proj g_one_tract)
-                 [(0%nat, [c18_e_NoError]); (1%nat, [c18_e_NoError; 3])] x2.
-Proof.
-  eexists.
-  change [(0%nat, [c18_e_NoError]); (1%nat, [c18_e_NoError; 3])]
-    with (([] ++ [(0%nat, [c18_e_NoError])]) ++ [(1%nat, [c18_e_NoError; 3])]).
-  eapply Ser_snoc with (o := op_setversion_stale); [ | reflexivity | ].
-  - eapply Ser_snoc with (o := op_write); [constructor | reflexivity | ].
-    eexists. split; [solo_run | reflexivity].
-  - eexists. split; [solo_run | reflexivity].
 Qed.
